@@ -54,6 +54,41 @@ theorem C13_depth_chain (n : Nat) (h₁ h₂ : D) (hne : h₁ ≠ h₂) :
     diffDepth (chain n h₁) (chain n h₂) = .ok n :=
   diffDepth_chain n h₁ h₂ hne
 
+/-- The sharp form of the bound: the recursion is driven by NESTING, not by length. The depth never
+exceeds the length of the longest chain `r₁ ⊇ r₂ ⊇ …` of nested ranges occurring in order in the peer
+list — for any local list, any length. -/
+theorem C13_depth_le_nesting (loc peer : List (PR K D)) (n : Nat)
+    (hn : ∀ c : List (PR K D), c.Sublist peer → IsNestChain c → c.length ≤ n)
+    (d : Nat) (hd : diffDepth loc peer = .ok d) : d ≤ n :=
+  diffDepth_le_nesting loc peer n hn d hd
+
+/-- In particular LONG FLAT lists are safe at every length: if no range of the peer list contains a
+later one, the walk never nests more than one `recurse_subtree` frame pair, however long the two
+lists are (the stack probes replay such lists of 10⁵ ranges on the implementation). -/
+theorem C13_depth_flat (loc peer : List (PR K D))
+    (hflat : peer.Pairwise (fun a b => a.supersetOf b = false))
+    (d : Nat) (hd : diffDepth loc peer = .ok d) : d ≤ 1 := by
+  refine diffDepth_le_nesting loc peer 1 ?_ d hd
+  intro c hc hch
+  match c, hc, hch with
+  | [], _, _ => simp
+  | [_], _, _ => simp
+  | a :: b :: r, hc, hch =>
+    exfalso
+    have hab : a.supersetOf b = true := by
+      have := hch
+      simp only [IsNestChain, List.isChain_cons_cons] at this
+      exact this.1
+    have hp := hflat.sublist hc
+    simp only [List.pairwise_cons] at hp
+    have := hp.1 b (by simp)
+    rw [hab] at this
+    cases this
+
+/-- Non-vacuity of `C13_depth_flat` (test): a flat peer list of three disjoint ranges. -/
+example : ([⟨1, 2, 7⟩, ⟨4, 5, 7⟩, ⟨7, 9, 7⟩] : List (PR Nat Nat)).Pairwise (fun a b => a.supersetOf b = false) := by
+  decide
+
 /-- Real trees are safe: diffing against the serialisation of a real (hashed) peer tree recurses at
 most (root level + 1) deep — whatever the local list is. Levels are `u8` (and < 65 for digests up to
 32 bytes), so trees produced by this library can never exhaust the stack; only untrusted,
